@@ -306,7 +306,7 @@ def check_completion(res, ws, o, a, mk):
             res.disagreements.append((f"complete `{o.name}` at file {o.file} offset {o.offset}", sorted(got - acc), sorted(predicted)))
 
 
-PROOF_MODULES = {"C05": ["Glas.Props.C05"], "C18": ["Glas.Props.C18"]}
+PROOF_MODULES = {"C05": ["Glas.Props.C05"], "C18": ["Glas.Props.C18", "Glas.Props.C18Dot"]}
 
 
 def run_dot_completion(res, tier, seed):
@@ -317,7 +317,7 @@ def run_dot_completion(res, tier, seed):
     rng = _r.Random(seed * 31 + 18)
     labels = ["size", "name", "id", "tag", "item", "next_one"]
     tys = ["Int", "Float", "String", "Bool", "List(Int)", "a"]
-    batches, plans = [], []
+    batches, plans, mreqs = [], [], []
     for k in range(60 if tier == "quick" else 1500):
         ncons = rng.randrange(1, 4)
         generic = rng.random() < 0.4
@@ -354,16 +354,101 @@ def run_dot_completion(res, tier, seed):
         ws = W(); ws.files = files
         batches.append((ws, [f"complete\t{fi}\t{off}\t."]))
         plans.append((files, common_fields, f"complete\t{fi}\t{off}\t."))
+        mreqs.append("fields\t" + ";".join((",".join(f"{l}:{hexs(t)}" for l, t in fs.items()) or "-") for fs in cons))
     ans = run_workspaces(batches)
+    mo, _ = common.run_lines(common.DRIVER_BIN, mreqs)
     res.cov["evaluations"] += len(batches)
-    for (files, want, q), a in zip(plans, ans):
+    for (files, want, q), a, mline in zip(plans, ans, mo):
         line = a[0]
         if line.startswith("PANIC"):
             continue
         got = sorted(it.split("|")[0] for it in line.split(";") if "|Field|" in it) if line not in ("none", "empty") else []
+        # the model of lower_custom_type (M-fields, theorem accessor_iff) must predict what the implementation offers
+        if (",".join(got) or "empty") != mline:
+            res.disagreements.append((q, ",".join(got) or "empty", mline))
         if got != want:
             res.add_violation("C18/dot-completion-fields", f"after `w.` the fields offered are {got}, the accessors of the type are {want}",
                               {"files": [{"path": p, "text": t} for p, t in files], "query": q, "impl": line[:300], "expected": want})
+
+
+def run_module_dot_completion(res, tier, seed):
+    """after `module.` exactly the module's public functions and the constructors of its public types are offered -
+    whatever else the module declares under the same names (a private type whose constructor is called like a public
+    type, a public type whose constructor is called like a private type, private functions, constants); the module may
+    be imported under an alias or live some directories deep (oracle only)"""
+    import random as _r
+    rng = _r.Random(seed * 37 + 5)
+    fnames = ["make", "size_of", "render", "to_list", "helper", "step"]
+    tnames = ["Token", "Shape", "Internal", "Box", "Node", "Mode"]
+    batches, plans, mreqs = [], [], []
+    for k in range(60 if tier == "quick" else 1500):
+        want = set()
+        text = ""
+        decls = []
+        for f in rng.sample(fnames, rng.randrange(1, 5)):
+            pub = rng.random() < 0.5
+            text += ("pub " if pub else "") + f"fn {f}(" + rng.choice(["", "x", "x: Int, y"]) + ") { 1 }\n"
+            decls.append(f"{f}:fn:{int(pub)}")
+            if pub:
+                want.add(f)
+        for c in rng.sample(["limit", "default_mode", "zero"], rng.randrange(0, 3)):
+            cpub = rng.random() < 0.5
+            text += ("pub " if cpub else "") + f"const {c} = 1\n"
+            decls.append(f"{c}:const:{int(cpub)}")
+        types = rng.sample(tnames, rng.randrange(1, 5))
+        used = set()
+        for t in types:
+            pub = rng.random() < 0.55
+            cons = []
+            for _ in range(rng.randrange(1, 4)):
+                # a constructor may be called like its own type, like another (public or private) type of the module,
+                # or have a name of its own; a name is declared as a constructor once
+                c = rng.choice([t, rng.choice(types), rng.choice(types), t + "Of", "Mk" + t, rng.choice(["Leaf", "Dot", "Wide"])])
+                if c in used:
+                    continue
+                used.add(c)
+                cons.append(c)
+            if not cons:
+                continue
+            text += ("pub " if pub else "") + f"type {t} {{\n" + "".join(
+                f"  {c}" + rng.choice(["", "(Int)", "(size: Int, name: String)"]) + "\n" for c in cons) + "}\n"
+            decls.append(f"{t}:adt:{int(pub)}")
+            decls += [f"{c}:variant:{int(pub)}" for c in cons]
+            if pub:
+                want |= set(cons)
+        mreqs.append("moddot\t" + (";".join(decls) or "-"))
+        how = rng.randrange(3)
+        if how == 0:
+            lib_path, imp, q = "/w/p/src/lib.gleam", "import lib", "lib"
+        elif how == 1:
+            lib_path, imp, q = "/w/p/src/lib.gleam", "import lib as tool", "tool"
+        else:
+            lib_path, imp, q = "/w/p/src/kit/inner/lib.gleam", "import kit/inner/lib", "lib"
+        main = f"{imp}\npub fn main() {{\n  {q}.\n}}\n"
+        files = [(lib_path, text), ("/w/p/src/main.gleam", main), ("/w/p/gleam.toml", 'name = "p"\n')]
+        off = len(main[:main.index(f"  {q}.") + 3 + len(q)].encode())
+        class W: pass
+        ws = W(); ws.files = files
+        qline = f"complete\t1\t{off}\t."
+        batches.append((ws, [qline])); plans.append((files, sorted(want), qline))
+    ans = run_workspaces(batches)
+    res.cov["evaluations"] += len(batches)
+    res.cov["module_dot_completions"] = len(batches)
+    mo, _ = common.run_lines(common.DRIVER_BIN, mreqs)
+    for (files, want, q), a, mline in zip(plans, ans, mo):
+        line = a[0]
+        if line.startswith("PANIC"):
+            continue
+        got = sorted({it.split("|")[0] for it in line.split(";") if "|Field|" not in it}) if line not in ("none", "empty") else []
+        # the model of complete_dot (M-fields, theorem moduleDot_iff) must predict what the implementation offers
+        if (",".join(got) or "empty") != mline:
+            res.disagreements.append((q, ",".join(got) or "empty", mline))
+        if got != want:
+            extra, missing = sorted(set(got) - set(want)), sorted(set(want) - set(got))
+            res.add_violation("C18/module-dot-completion",
+                              f"after `module.` the items offered are {got}; the module's public functions and constructors of public types are {want} "
+                              f"(not public: {extra}; missing: {missing})",
+                              {"files": [{"path": p, "text": t} for p, t in files], "query": q, "impl": line[:400], "expected": want})
 
 
 def run_prefix_completion(res, tier, seed):
@@ -427,6 +512,7 @@ def run(prop, res, tier, seed):
     run_c05(res, tier, seed, want_c18=(prop == "C18"))
     if prop == "C18":
         run_dot_completion(res, tier, seed)
+        run_module_dot_completion(res, tier, seed)
         run_prefix_completion(res, tier, seed)
         # C18 only reports completion findings
         res.violations = [v for v in res.violations if v[0].startswith("C18/")]
